@@ -25,6 +25,10 @@ From CanTranslated Require Translated.
 Import ListNotations.
 Open Scope Z_scope.
 
+(** a lemma that no longer holds must FAIL, not make the unifier search for minutes: every sentence
+    of this file normally takes well under a second *)
+Set Default Timeout 20.
+
 (** * Common: ranges, and the tactic that removes wraps which cannot wrap *)
 Lemma data_get_byte_at d i : data_get d i = byte_at d i.
 Proof. reflexivity. Qed.
@@ -106,7 +110,7 @@ Proof.
 Qed.
 
 Lemma T_invertEndian_eq i : Translated.invertEndian i = invert_endian i.
-Proof. reflexivity. Qed.
+Proof. unfold Translated.invertEndian, invert_endian. norm. reflexivity. Qed.
 
 Lemma T_Data_UnsignedBitsLittleEndian_eq d start length :
   valid_data d ->
@@ -234,7 +238,7 @@ Lemma T_Data_SetSignedBitsLittleEndian_eq d start length value :
   Translated.Data_SetSignedBitsLittleEndian d start length value = set_sbits_le d start length value.
 Proof.
   intros Hd. unfold Translated.Data_SetSignedBitsLittleEndian, set_sbits_le. cbv zeta.
-  rewrite T_AsUnsigned_eq. now apply T_Data_SetUnsignedBitsLittleEndian_eq.
+  rewrite T_AsUnsigned_eq. rewrite T_Data_SetUnsignedBitsLittleEndian_eq by assumption. reflexivity.
 Qed.
 
 Lemma T_Data_SetSignedBitsBigEndian_eq d start length value :
@@ -242,5 +246,171 @@ Lemma T_Data_SetSignedBitsBigEndian_eq d start length value :
   Translated.Data_SetSignedBitsBigEndian d start length value = set_sbits_be d start length value.
 Proof.
   intros Hd. unfold Translated.Data_SetSignedBitsBigEndian, set_sbits_be. cbv zeta.
-  rewrite T_AsUnsigned_eq. now apply T_Data_SetUnsignedBitsBigEndian_eq.
+  rewrite T_AsUnsigned_eq. rewrite T_Data_SetUnsignedBitsBigEndian_eq by assumption. reflexivity.
 Qed.
+
+(** [1 << (i % 8)] evaluated in uint8: the count is below the width, the result is wrapped once *)
+Lemma shl8_bit i : wrap_u 8 (go_shl_u 8 1 (i mod 8)) = u8 (Z.shiftl 1 (i mod 8)).
+Proof.
+  unfold go_shl_u. pose proof (Z.mod_pos_bound i 8 ltac:(lia)) as H.
+  destruct (Z.ltb_spec (i mod 8) 8); [| lia]. rewrite wrap_u_idem. reflexivity.
+Qed.
+
+Lemma T_Data_Bit_eq d i : Translated.Data_Bit d i = bit d i.
+Proof.
+  unfold Translated.Data_Bit, bit. cbv zeta. unfold go_rem_u. rewrite shl8_bit. reflexivity.
+Qed.
+
+Lemma T_Data_SetBit_eq d i value : Translated.Data_SetBit d i value = set_bit d i value.
+Proof.
+  unfold Translated.Data_SetBit, set_bit. cbv zeta. unfold go_rem_u. rewrite !shl8_bit.
+  unfold data_set. rewrite !list_set_set_nth. norm. reflexivity.
+Qed.
+
+Lemma T_CheckBitRangeLittleEndian_eq frameLength rangeStart rangeLength :
+  in_u 8 frameLength -> in_u 8 rangeStart -> in_u 8 rangeLength ->
+  Translated.CheckBitRangeLittleEndian frameLength rangeStart rangeLength
+  = check_le frameLength rangeStart rangeLength.
+Proof.
+  intros Hf Hs Hl. unfold Translated.CheckBitRangeLittleEndian, check_le. cbv zeta.
+  rewrite (wrap_u_small 16 frameLength), (wrap_u_small 16 rangeStart), (wrap_u_small 16 rangeLength) by range.
+  norm. destruct (_ <=? _); reflexivity.
+Qed.
+
+Lemma T_CheckBitRangeBigEndian_eq frameLength rangeStart rangeLength :
+  Translated.CheckBitRangeBigEndian frameLength rangeStart rangeLength
+  = check_be frameLength rangeStart rangeLength.
+Proof.
+  unfold Translated.CheckBitRangeBigEndian, check_be. cbv zeta. rewrite !T_invertEndian_eq.
+  norm. repeat (destruct (_ <=? _) || destruct (_ <? _)); reflexivity.
+Qed.
+
+Lemma T_CheckValue_eq value bits :
+  Translated.CheckValue value bits = check_value value bits.
+Proof.
+  unfold Translated.CheckValue, check_value. cbv zeta. unwrap. norm.
+  destruct (Z.leb_spec 64 bits), (Z.ltb_spec bits 64); try lia; reflexivity.
+Qed.
+
+(* @group descriptor requires can *)
+(** ** pkg/descriptor/signal.go, integer part  (models: Descriptor/Signal.v) *)
+From CanVerif Require Import Descriptor.Signal.
+
+(** the Go struct as the translator sees it (only the fields the translated methods read) *)
+Definition sig_of (s : signal) : Translated.Signal :=
+  {| Translated.Signal_Start := s_start s;
+     Translated.Signal_Length := s_length s;
+     Translated.Signal_IsBigEndian := s_big_endian s |}.
+
+Lemma T_Signal_MaxUnsigned_eq s : Translated.Signal_MaxUnsigned (sig_of s) = max_unsigned s.
+Proof. reflexivity. Qed.
+
+Lemma T_Signal_MinSigned_eq s : Translated.Signal_MinSigned (sig_of s) = min_signed s.
+Proof. reflexivity. Qed.
+
+Lemma T_Signal_MaxSigned_eq s : Translated.Signal_MaxSigned (sig_of s) = max_signed s.
+Proof. reflexivity. Qed.
+
+Lemma T_Signal_SaturatedCastSigned_eq s value :
+  Translated.Signal_SaturatedCastSigned (sig_of s) value = saturated_cast_signed s value.
+Proof.
+  unfold Translated.Signal_SaturatedCastSigned, saturated_cast_signed, saturated_cast_signed_l. cbv zeta.
+  rewrite T_Signal_MinSigned_eq, T_Signal_MaxSigned_eq. reflexivity.
+Qed.
+
+Lemma T_Signal_SaturatedCastUnsigned_eq s value :
+  Translated.Signal_SaturatedCastUnsigned (sig_of s) value = saturated_cast_unsigned s value.
+Proof.
+  unfold Translated.Signal_SaturatedCastUnsigned, saturated_cast_unsigned, saturated_cast_unsigned_l. cbv zeta.
+  rewrite T_Signal_MaxUnsigned_eq. reflexivity.
+Qed.
+
+Lemma T_Signal_UnmarshalUnsigned_eq s d :
+  valid_data d -> Translated.Signal_UnmarshalUnsigned (sig_of s) d = unmarshal_unsigned s d.
+Proof.
+  intros Hd. unfold Translated.Signal_UnmarshalUnsigned, unmarshal_unsigned. cbn [sig_of Translated.Signal_IsBigEndian Translated.Signal_Start Translated.Signal_Length].
+  destruct (s_big_endian s).
+  - rewrite T_Data_UnsignedBitsBigEndian_eq by assumption. reflexivity.
+  - rewrite T_Data_UnsignedBitsLittleEndian_eq by assumption. reflexivity.
+Qed.
+
+Lemma T_Signal_UnmarshalSigned_eq s d :
+  valid_data d -> in_u 8 (s_start s) ->
+  Translated.Signal_UnmarshalSigned (sig_of s) d = unmarshal_signed s d.
+Proof.
+  intros Hd Hs. unfold Translated.Signal_UnmarshalSigned, unmarshal_signed. cbn [sig_of Translated.Signal_IsBigEndian Translated.Signal_Start Translated.Signal_Length].
+  destruct (s_big_endian s).
+  - rewrite T_Data_SignedBitsBigEndian_eq by assumption. reflexivity.
+  - rewrite T_Data_SignedBitsLittleEndian_eq by assumption. reflexivity.
+Qed.
+
+Lemma T_Signal_UnmarshalBool_eq s d : Translated.Signal_UnmarshalBool (sig_of s) d = unmarshal_bool s d.
+Proof. unfold Translated.Signal_UnmarshalBool, unmarshal_bool. rewrite T_Data_Bit_eq. reflexivity. Qed.
+
+Lemma T_Signal_MarshalUnsigned_eq s d value :
+  valid_data d -> Translated.Signal_MarshalUnsigned (sig_of s) d value = marshal_unsigned s d value.
+Proof.
+  intros Hd. unfold Translated.Signal_MarshalUnsigned, marshal_unsigned. cbv zeta. cbn [sig_of Translated.Signal_IsBigEndian Translated.Signal_Start Translated.Signal_Length].
+  destruct (s_big_endian s).
+  - rewrite T_Data_SetUnsignedBitsBigEndian_eq by assumption. reflexivity.
+  - rewrite T_Data_SetUnsignedBitsLittleEndian_eq by assumption. reflexivity.
+Qed.
+
+Lemma T_Signal_MarshalSigned_eq s d value :
+  valid_data d -> Translated.Signal_MarshalSigned (sig_of s) d value = marshal_signed s d value.
+Proof.
+  intros Hd. unfold Translated.Signal_MarshalSigned, marshal_signed. cbv zeta. cbn [sig_of Translated.Signal_IsBigEndian Translated.Signal_Start Translated.Signal_Length].
+  destruct (s_big_endian s).
+  - rewrite T_Data_SetSignedBitsBigEndian_eq by assumption. reflexivity.
+  - rewrite T_Data_SetSignedBitsLittleEndian_eq by assumption. reflexivity.
+Qed.
+
+Lemma T_Signal_MarshalBool_eq s d value :
+  Translated.Signal_MarshalBool (sig_of s) d value = marshal_bool s d value.
+Proof. unfold Translated.Signal_MarshalBool, marshal_bool. cbv zeta. rewrite T_Data_SetBit_eq. reflexivity. Qed.
+
+(* @group wire *)
+(** ** frame.go Validate, pkg/socketcan/frame.go  (models: Socketcan/Wire.v, Can/Frame.v) *)
+From CanVerif Require Socketcan.Wire Can.Frame.
+
+Definition fr_of (f : Wire.frame) : Translated.Frame :=
+  {| Translated.Frame_ID := Wire.fid f; Translated.Frame_Length := Wire.flen f;
+     Translated.Frame_Data := Wire.fdata f; Translated.Frame_IsRemote := Wire.fremote f;
+     Translated.Frame_IsExtended := Wire.fext f |}.
+Definition fr_of' (f : Frame.frame) : Translated.Frame :=
+  {| Translated.Frame_ID := Frame.f_id f; Translated.Frame_Length := Frame.f_len f;
+     Translated.Frame_Data := Frame.f_data f; Translated.Frame_IsRemote := Frame.f_remote f;
+     Translated.Frame_IsExtended := Frame.f_ext f |}.
+Definition sc_of (f : Wire.scframe) : Translated.frame :=
+  {| Translated.frame_idAndFlags := Wire.idflags f; Translated.frame_dataLengthCode := Wire.dlc f;
+     Translated.frame_data := Wire.scdata f |}.
+
+Lemma T_Frame_Validate_eq f : Translated.Frame_Validate (fr_of f) = Wire.validate f.
+Proof. reflexivity. Qed.
+
+(** the same Go function against the second hand model of it (Can/Frame.v, used by C15/C16) *)
+Lemma T_Frame_Validate_eq' f : Translated.Frame_Validate (fr_of' f) = Frame.validate f.
+Proof. reflexivity. Qed.
+
+Lemma T_frame_isExtended_eq f : Translated.frame_isExtended (sc_of f) = Wire.is_extended f.
+Proof. reflexivity. Qed.
+
+Lemma T_frame_isRemote_eq f : Translated.frame_isRemote (sc_of f) = Wire.is_remote f.
+Proof. reflexivity. Qed.
+
+Lemma T_frame_isError_eq f : Translated.frame_isError (sc_of f) = Wire.is_error f.
+Proof. reflexivity. Qed.
+
+Lemma T_frame_id_eq f : Translated.frame_id (sc_of f) = Wire.sc_id f.
+Proof. reflexivity. Qed.
+
+(** encodeFrame overwrites every field of the receiver, whatever it held before ([f0]) *)
+Lemma T_frame_encodeFrame_eq f0 cf :
+  Translated.frame_encodeFrame (sc_of f0) (fr_of cf) = sc_of (Wire.encode_frame cf).
+Proof.
+  unfold Translated.frame_encodeFrame, Wire.encode_frame. cbv zeta.
+  destruct cf as [id len dat rem ext]. destruct rem, ext; reflexivity.
+Qed.
+
+Lemma T_frame_decodeFrame_eq f : Translated.frame_decodeFrame (sc_of f) = fr_of (Wire.decode_frame f).
+Proof. reflexivity. Qed.
